@@ -56,6 +56,7 @@ func checkC10(r *Report, known []Finding) {
 	probes := []string{`^.*?b`, `^.+?b`, `.*?b`, `^a.*?b`, `(?s)^.*?x`, `[ab]|[ab][ab]`, `[a-c]x|[a-c]x[a-c]`, `x[ab]|x[ab][ab]c`, `foo\d|foo\d\dz?`, `[a-z]+?`, `[a-z]??[a-z][0-9]*?`,
 		`(a|ab)(c|bcd)`, `\w+?\s`, `^(?:a|ab)+?`, `.+?`, `(?:.|ab)+?c?`}
 	runE2E(r, known, e2eSpec{prop: "C10", obs: obs, longest: true, np: 4000, nh: 10, npT: 18000, nhT: 14, probes: probes, nontriv: func(w string) bool { return w != "nil" && w != "false" }})
+	c02MetaFindTie(r) // its longest / squeeze+longest variants: the core dispatch after SetLongest(true) vs Cx.MetaFind (flag L) and regexp with Longest()
 	// inputs beyond the capacity of the bounded backtracker (32M visited entries): the fallback engines must honour the mode as well
 	{
 		tb := r.Tie("longest mode on inputs larger than the bounded backtracker's capacity == regexp")
